@@ -34,6 +34,13 @@ Model of environment binding: `pkg/value/value.go` (`Value.Is`, `IsIdentified`),
 
 Ids are `Nat` (0 = uuid.Nil).  `Spec.env` is `Meta.Env` in the order `range` happens to visit it
 (all orders are covered by quantifying over all lists); `Spec.fields = none` is a nil `Fields` map.
+
+Second use.  `bind` is a function of (spec, value list): the list is read, never written, and a spec remembers
+nothing from an earlier call except what Bind stored in its Env (ID, Name, Data of the chosen value).  The Go code
+receives the caller's slice itself (`sp.Bind(vals...)` passes the backing array): the harness
+(harness/c18/seconduse.go) binds several specs of different namespaces from ONE slice, checks after every Bind that
+the slice holds the same pointers to unchanged values, and compares every Bind/Build of such a chain – and a second
+Bind of the bound spec, and a Bind with more values after Build – with this model run on that spec alone.
 -/
 import Uniflow.Model.Template
 
